@@ -44,3 +44,13 @@ func init() {
 		Mutant{Name: "c05-batches-outside-transaction", Property: "C05", Rule: "C05.batch", Edits: []Edit{{"finisher_api.go", "if tx.SkipDefaultTransaction || reflectLen <= batchSize {", "if tx.SkipDefaultTransaction || reflectLen > 0 {"}}},
 	)
 }
+
+func init() {
+	addMutants(
+		Mutant{Name: "c05-marker-key-mismatch", Property: "C05", Rule: "C05.commit-or-rollback", Edits: []Edit{{"callbacks/transaction.go",
+			"if _, ok := db.InstanceGet(\"gorm:started_transaction\"); ok {", "if _, ok := db.InstanceGet(\"gorm:transaction_started\"); ok {"}},
+			Note: "the implicit transaction is begun but never finished; no test counts open transactions"},
+		Mutant{Name: "c05-installs-outer-pool", Property: "C05", Rule: "C05.commit-or-rollback", Edits: []Edit{{"callbacks/transaction.go",
+			"\t\t\tdb.Statement.ConnPool = tx.Statement.ConnPool\n", "\t\t\tdb.Statement.ConnPool = tx.ConnPool\n"}}},
+	)
+}
